@@ -63,6 +63,20 @@ def d5_alternative_errors(ctx, idx):
         sup = [c for c in lib.calls_named(fi.node, 'check_response') if isinstance(c.func, ast.Attribute) and isinstance(c.func.value, ast.Call)
                and nf.callee_name(c.func.value) == 'super']
         trs = [t for c in sup for t in lib.enclosing_trys(c)]
+        if not sup:
+            # the call (with its `with` block) moved into a new helper method that check_response calls inside the try
+            for c in walk_own(fi.node):
+                if isinstance(c, ast.Call) and isinstance(c.func, ast.Attribute) and fl.name_of(c.func.value) == fi.params[0]:
+                    try:
+                        tg, how = idx.resolve_call(fi, c)
+                    except Exception:
+                        tg = []
+                    for t_ in tg:
+                        if not isinstance(t_, tuple) and t_.qualname in (idx.unreviewed or []) and any(
+                                isinstance(x, ast.Call) and nf.callee_name(x) == 'check_response' and isinstance(x.func, ast.Attribute)
+                                and isinstance(x.func.value, ast.Call) and nf.callee_name(x.func.value) == 'super' for x in walk_own(t_.node)):
+                            sup = [c]
+                            trs = lib.enclosing_trys(c)
         if len(sup) != 1 or len(trs) != 1:
             r.undecided('MatrixGrader.check_response', 'expected one try around super().check_response(...), found %d' % len(trs), fi.loc)
             return
@@ -164,7 +178,11 @@ def _locate_host(idx, fi):
     if hin is None:
         raise AnalysisError('ItemGrader.check: helper %s does not receive the student input' % h.name)
     st = enclosing_stmt(site)
-    bound = st.targets[0].id if isinstance(st, ast.Assign) and st.value is site and len(st.targets) == 1 \
+    val = st.value if isinstance(st, ast.Assign) else None
+    while isinstance(val, ast.Call) and isinstance(val.func, ast.Name) and val.func.id in ('list', 'tuple') and len(val.args) == 1 \
+            and val is not site:
+        val = val.args[0]                       # list(<generator helper>(...))
+    bound = st.targets[0].id if isinstance(st, ast.Assign) and val is site and len(st.targets) == 1 \
         and isinstance(st.targets[0], ast.Name) else None
     if bound is None:
         raise AnalysisError('ItemGrader.check: the result of helper %s is not bound to a name' % h.name)
@@ -327,6 +345,26 @@ def d1_loops(ctx, idx):
             if arg is call or (isinstance(arg, ast.Name) and isinstance(st, ast.Assign)
                                and any(fl.name_of(t) == arg.id for t in st.targets)):
                 prov_ok.append(a)
+        yields = [y for y in ast.walk(outer) if isinstance(y, ast.Yield)] if hfi is not fi else []
+        if not prov_ok and len(yields) == 1:
+            # the host is a generator: each result is yielded and the caller collects the generator into a list
+            y = yields[0]
+            yv = y.value
+            is_res = yv is call or (isinstance(yv, ast.Name) and isinstance(st, ast.Assign) and any(fl.name_of(t) == yv.id for t in st.targets))
+            yst = enclosing_stmt(y)
+            innermost = loops[-1]
+            conds = [a for a, br in fl.if_chain_containing(yst, hfi.node) if any(a is x for x in ast.walk(outer))]
+            if conds:
+                r.violation(C + ': results', 'a result is only yielded under `%s`: the other alternatives drop out of the comparison'
+                            % short(conds[0].test), lib.loc(hfi, yst))
+            elif is_res and any(s_ is yst for s_ in innermost.body):
+                r.ok(C + ': results', 'one result yielded per (answer, entry); the caller collects them all', lib.loc(hfi, yst))
+            else:
+                r.undecided(C + ': results', 'yield not recognised: %s' % short(yst), lib.loc(hfi, yst))
+            r.ok(C + ': results list', 'list(<generator>) in check collects every yielded result', lib.loc(fi, fi.node))
+            info.results = bound
+            _d1_call_args(r, C, hfi, call, p_input, where)
+            return info
         if len(prov_ok) != 1:
             if not prov_ok:
                 fl.absent(r, idx, C + ': results', 'the result of check_response is no longer appended to the list of results', where)
